@@ -101,11 +101,11 @@ Definition aput (e : env) (x : var) (a : aset) : env := (x, a) :: e.
 (* guards: establishing err == nil, overwriting err *)
 Definition env_map (fn : prod -> prod) (e : env) : env := map (fun ya => (fst ya, map fn (snd ya))) e.
 Definition check_guard (xe : var) (p : prod) : prod :=
-  match p with PGuard f cs y => if var_eqb y xe then PChecked f cs else p | _ => p end.
+  match p with PGuard f cs y => if var_eqb y xe && negb (is_glob y) then PChecked f cs else p | _ => p end.
 Definition kill_guard (xe : var) (p : prod) : prod :=
   match p with PGuard f cs y => if var_eqb y xe then PUng f cs else p | _ => p end.
 (* assignment to x: results whose error x held can no longer be checked *)
-Definition aputk (e : env) (x : var) (a : aset) : env := aput (env_map (kill_guard x) e) x a.
+Definition aputk (e : env) (x : var) (a : aset) : env := aput (env_map (kill_guard x) e) x (map (kill_guard x) a).
 (* triggers are merged per (producer site, consumer): a use reached by a checked and by an unchecked result of the
    same function counts as unchecked -- the checked forms are dropped when a use is turned into triggers *)
 Definition norm (ps : aset) : aset :=
